@@ -273,6 +273,9 @@ void UncompressedFile::setBufferSize(std::streamsize bufferSize) {
 
     /* set max size */
     m_bufferSize = bufferSize;
+
+    /* a writer may be waiting for space under the old limit */
+    tellgChanged.notify_all();
 }
 
 void UncompressedFile::dropOldData() {
